@@ -39,7 +39,7 @@ impl Compiler {
             r is Ok ==> is_prefix(old(self).instructions@, final(self).instructions@),
             r is Ok ==> gen_post(*old(self), *final(self), true),
     {
-//@LOOP 1 invariant sym_globals_kept(old(self).symbols, self.symbols), hstep(old(self).height@, self.height@, __it.index@ as int), gen_inv(*self), gen_inv(*old(self)), gen_post(*old(self), *self, false), sym_depth(self.symbols) == sym_depth(old(self).symbols), sym_contexts(self.symbols) == sym_contexts(old(self).symbols), sym_outer(self.symbols) == sym_outer(old(self).symbols), is_prefix(old(self).instructions@, self.instructions@), self.log@.len() == old(self).log@.len() + __it.index@, forall|j: int| 0 <= j < __it.index@ ==> #[trigger] self.log@[old(self).log@.len() + j].what == LogWhat::E(arguments@[j]),
+//@LOOP 1 invariant sym_globals_kept(old(self).symbols, self.symbols), hstep(old(self).height@, self.height@, __it.index@ as int), gen_inv(*self), gen_inv(*old(self)), gen_post(*old(self), *self, false), sym_depth(self.symbols) == sym_depth(old(self).symbols), sym_contexts(self.symbols) == sym_contexts(old(self).symbols), sym_outer(self.symbols) == sym_outer(old(self).symbols), sym_outer_sizes(self.symbols) == sym_outer_sizes(old(self).symbols), is_prefix(old(self).instructions@, self.instructions@), self.log@.len() == old(self).log@.len() + __it.index@, forall|j: int| 0 <= j < __it.index@ ==> #[trigger] self.log@[old(self).log@.len() + j].what == LogWhat::E(arguments@[j]),
 //@PRELOOP 1 proof { lemma_gen_post_refl(*old(self)); }
 //@GHOST before="self.compile_expression(a)?;" let ghost s_it = *self;
 //@GHOST after="self.compile_expression(a)?;" proof { lemma_gen_post_trans(*old(self), s_it, *self, false, true); }
@@ -79,7 +79,7 @@ impl Compiler {
             r is Ok ==> is_prefix(old(self).instructions@, final(self).instructions@),
             r is Ok ==> gen_post(*old(self), *final(self), true),
     {
-//@LOOP 1 invariant sym_globals_kept(old(self).symbols, self.symbols), hstep(old(self).height@, self.height@, __it.index@ as int), gen_inv(*self), gen_inv(*old(self)), gen_post(*old(self), *self, false), sym_depth(self.symbols) == sym_depth(old(self).symbols), sym_contexts(self.symbols) == sym_contexts(old(self).symbols), sym_outer(self.symbols) == sym_outer(old(self).symbols), is_prefix(old(self).instructions@, self.instructions@), self.log@.len() == old(self).log@.len() + __it.index@, forall|j: int| 0 <= j < __it.index@ ==> #[trigger] self.log@[old(self).log@.len() + j].what == LogWhat::E(values@[j]),
+//@LOOP 1 invariant sym_globals_kept(old(self).symbols, self.symbols), hstep(old(self).height@, self.height@, __it.index@ as int), gen_inv(*self), gen_inv(*old(self)), gen_post(*old(self), *self, false), sym_depth(self.symbols) == sym_depth(old(self).symbols), sym_contexts(self.symbols) == sym_contexts(old(self).symbols), sym_outer(self.symbols) == sym_outer(old(self).symbols), sym_outer_sizes(self.symbols) == sym_outer_sizes(old(self).symbols), is_prefix(old(self).instructions@, self.instructions@), self.log@.len() == old(self).log@.len() + __it.index@, forall|j: int| 0 <= j < __it.index@ ==> #[trigger] self.log@[old(self).log@.len() + j].what == LogWhat::E(values@[j]),
 //@PRELOOP 1 proof { lemma_gen_post_refl(*old(self)); }
 //@GHOST before="self.compile_expression(v)?;" let ghost s_it = *self;
 //@GHOST after="self.compile_expression(v)?;" proof { lemma_gen_post_trans(*old(self), s_it, *self, false, true); }
